@@ -1461,6 +1461,42 @@ fn ols_random_shape(c: &mut Case, tall: bool) -> Outcome {
     }
 }
 
+/// features that vary by about one unit on top of an offset that is large for the element type
+/// (1e6..1e8 in f64, 1e3..4e3 in f32), with an intercept: centring makes this a well-conditioned
+/// problem, and the coefficient of such a column is as determined as that of a centred one
+fn ols_far_offset(c: &mut Case) -> Outcome {
+    let f32m = c.rng.gen::<f64>() < 0.5;
+    let p = c.rng.gen_range(1..=3usize);
+    let n = (p + 1) * c.rng.gen_range(12..40);
+    let mut x = Array2::<f64>::zeros((n, p));
+    let mut tags = String::new();
+    for j in 0..p {
+        let off = if f32m { *gen::pick(&mut c.rng, &[1e3, 4e3, -2e3, 0.0]) } else { *gen::pick(&mut c.rng, &[1e6, 1e8, -3e7, 0.0]) };
+        let spread = *gen::pick(&mut c.rng, &[1.0, 0.25, 3.0]);
+        for i in 0..n {
+            let v = off + spread * if j % 2 == 0 { gen::uniform(&mut c.rng, -1.0, 1.0) } else { gen::normal(&mut c.rng) };
+            x[[i, j]] = if f32m { (v as f32) as f64 } else { v };
+        }
+        tags.push_str(&format!("[{off:e}+-{spread}]"));
+    }
+    // targets from the centred features, so that their size does not hide the coefficients
+    let mut y = Array2::<f64>::zeros((n, 1));
+    let beta: Vec<f64> = (0..p).map(|_| *gen::pick(&mut c.rng, &[1.0, -2.0, 0.5])).collect();
+    let means: Vec<f64> = (0..p).map(|j| x.column(j).sum() / n as f64).collect();
+    for i in 0..n {
+        y[[i, 0]] = 3.0 + (0..p).map(|j| beta[j] * (x[[i, j]] - means[j])).sum::<f64>() + 0.1 * gen::normal(&mut c.rng);
+    }
+    let layout = c.rng.gen_range(0..NLAYOUT);
+    let desc = json!({"n": n, "p": p, "float": if f32m {"f32"} else {"f64"}, "columns": tags, "with_intercept": true, "layout": layout,
+        "x_head": x.rows().into_iter().take(6).map(|r| r.to_vec()).collect::<Vec<_>>()});
+    c.note("case", desc.clone());
+    let res = if f32m { run_ols_case::<f32>(c, &x, &y, true, layout, &desc) } else { run_ols_case::<f64>(c, &x, &y, true, layout, &desc) };
+    match res {
+        Err(o) => o,
+        Ok(nt) => held(nt, format!("ols-far-offset n={n} p={p} f32={f32m} lay={layout} cols={tags} h={:x}", small_hash(&x, &y))),
+    }
+}
+
 /// complete enumeration: n = 3, p = 1, x in XVALS^3, y in YVALS^3, intercept on/off, f32/f64
 fn ols_lattice(c: &mut Case, idx: u64) -> Outcome {
     let mut k = idx;
@@ -1512,6 +1548,7 @@ pub fn run(ctx: &Ctx) {
 
     ctx.family("ols", ctx.tier.pick(1500, 12000), |c| ols_random(c));
     ctx.family("ols-tall", ctx.tier.pick(800, 6000), |c| ols_tall(c));
+    ctx.family("ols-far-offset", ctx.tier.pick(400, 3000), |c| ols_far_offset(c));
     ctx.family("ols-lattice", 2 * 2 * 64 * 27, |c| {
         let idx = c.idx;
         ols_lattice(c, idx)
